@@ -34,3 +34,33 @@ def entry_summary(S, e):
 def short(e, n=400):
     s = repr(e)
     return s if len(s) <= n else s[:n] + "..."
+
+
+def find_entry(gen, **opts):
+    for e in CATALOGUE:
+        if e.gen == gen and all(e.opts.get(k) == v for k, v in opts.items()):
+            return e
+    raise Unsupported("anchor vanished: no catalogue entry for %s %r" % (gen, opts))
+
+
+def interiors(S, e):
+    """deep-interior expression of every argument array of a catalogue entry"""
+    sm, raised, _, _ = entry_summary(S, e)
+    if sm is None or sm.raised is not None:
+        raise Unsupported("cannot summarise %s: %s" % (e.label(), raised or sm.raised))
+    return {n: sm.interior(n) for n in sm.final}, sm
+
+
+def rename_fields(expr, mapping):
+    """rename array base names: {'field': 'psi'} renames field and field[c]"""
+    def f(a):
+        if a[0] == "f":
+            n = a[1]
+            base, br, rest = n.partition("[")
+            b2, dot, part = base.partition(".")
+            if b2 in mapping:
+                return ("f", mapping[b2] + dot + part + br + rest, a[2])
+            if n in mapping:
+                return ("f", mapping[n], a[2])
+        return a
+    return expr.map_atoms(f)
